@@ -35,39 +35,84 @@ def r1(ctx):
             roots[n.targets[0].id] = u(n.value.args[0])
     ok = sorted(roots.values()) == sorted([x, y])
     ctx.ob(m.qual, "roots-of-both-arguments", ok, m.loc(), "merge works on the roots of both arguments" if ok else "merge does not take _find_node of both arguments")
-    stores = [s for s in util.store_sites(m.node) if s.kind == "attr" and s.target.attr == "parent"]
-    ctx.require(len(stores) >= 1, "no .parent store in merge")
-    for s in stores:
-        child, parent = u(s.target.value), u(s.value)
-        ga = guard_atoms(cfg, cfg.node_of(s.stmt))
-        ok = child in roots and parent in roots and child != parent and ((("%s.value < %s.value" % (parent, child)), True) in ga or (("%s.value < %s.value" % (child, parent)), False) in ga)
-        ctx.ob(m.qual, "smaller-root-becomes-parent:%s.parent=%s" % (child, parent), ok, m.loc(s.stmt), "%s.parent = %s only where %s.value <= ... < is established: the smaller value stays root" % (child, parent, parent) if ok else "%s.parent = %s is not on the branch where %s has the smaller value: the representative is no longer the minimum" % (child, parent, parent))
-    both = {(u(s.target.value), u(s.value)) for s in stores}
-    rn = sorted(roots)
-    ok = len(rn) == 2 and both == {(rn[0], rn[1]), (rn[1], rn[0])}
+    # path-sensitive summary of merge: guard style, temporaries and `parent, child = ...` selections do not matter
+    from sa import pathfx
+
+    RX, RY = "self._find_node(%s)" % x, "self._find_node(%s)" % y
+    same_atom = "%s is %s" % tuple(sorted([RX, RY]))
+    sums = pathfx.summaries(cfg)
+    ctx.require(len(sums) >= 2, "merge has fewer than two feasible paths")
+    orientations = set()
+    n_store_paths = 0
+    for ps in sums:
+        st = [(u(e[1].value), u(e[2]), e[3]) for e in ps.stores("parent")]
+        if not st:
+            continue
+        n_store_paths += 1
+        where = m.loc(st[0][2])
+        if len(st) != 1 or {st[0][0], st[0][1]} != {RX, RY}:
+            ctx.ob(m.qual, "smaller-root-becomes-parent:%s" % ";".join("%s.parent=%s" % (c_, p_) for c_, p_, _ in st), False, where, "on one path merge links %s: not exactly one of the two roots below the other" % ["%s.parent = %s" % (c_, p_) for c_, p_, _ in st], cfg.describe_path(ps.path))
+            continue
+        child, parent = st[0][0], st[0][1]
+        orientations.add((child, parent))
+        smaller = ps.has("%s.value < %s.value" % (parent, child), True) or ps.has("%s.value < %s.value" % (child, parent), False) or ps.has("%s.value <= %s.value" % (parent, child), True) or ps.has("%s.value <= %s.value" % (child, parent), False)
+        distinct = ps.has(same_atom, False)
+        ok = smaller and distinct
+        short = lambda t: t.replace(RX, x + "_root").replace(RY, y + "_root")
+        ctx.ob(m.qual, "smaller-root-becomes-parent:%s.parent=%s" % (short(child), short(parent)), ok, where, "%s.parent = %s only on a path that established the two roots differ and %s.value is not larger: the smaller value stays root" % (short(child), short(parent), short(parent)) if ok else ("%s.parent = %s is reached without having established that %s has the smaller value: the representative is no longer the minimum" % (short(child), short(parent), short(parent)) if not smaller else "%s.parent = %s is reached without the roots being known to differ (a root would become its own parent)" % (short(child), short(parent))), cfg.describe_path(ps.path))
+    ctx.require(n_store_paths >= 1, "no path of merge stores a .parent")
+    ok = orientations == {(RX, RY), (RY, RX)}
     ctx.ob(m.qual, "both-orientations-handled", ok, m.loc(), "either root can become the child, depending on the comparison" if ok else "merge does not handle both orientations")
-    same = [n for n in walk_function(m.node) if isinstance(n, ast.If) and atoms(n.test, True) in ({("%s is %s" % tuple(sorted(rn)), True)},) and any(isinstance(b, ast.Return) for b in n.body)] if len(rn) == 2 else []
-    ctx.ob(m.qual, "same-root-returns", bool(same), m.loc(), "merging two members of one component changes nothing" if same else "no early return for identical roots")
+    quiet = [ps for ps in sums if not ps.stores("parent")]
+    ok = bool(quiet) and all(ps.has(same_atom, True) for ps in quiet)
+    ctx.ob(m.qual, "same-root-returns", ok, m.loc(), "merge leaves the forest untouched exactly when both arguments already have the same root" if ok else "merge can finish without linking two different roots (or has no case for identical roots)")
     f = ctx.func(G + "._find_node")
     fcfg = ctx.cfg(f)
-    pst = [s for s in util.store_sites(f.node) if (s.kind == "attr" and s.target.attr == "parent")]
-    # tuple assignment node.parent, node = root, node.parent
-    ok = False
+    # the upward walk: `while R.parent is not None: R = R.parent`; R and names copied from it afterwards are "root names"
+    walks = []
+    for w in walk_function(f.node):
+        if isinstance(w, ast.While):
+            at = atoms(w.test, True)
+            for b_ in w.body:
+                if isinstance(b_, ast.Assign) and len(b_.targets) == 1 and isinstance(b_.targets[0], ast.Name) and u(b_.value) == "%s.parent" % b_.targets[0].id and at == {("None is %s.parent" % b_.targets[0].id, False)} and len(w.body) == 1:
+                    walks.append((w, b_.targets[0].id))
+    root_names = set()
+    if len(walks) == 1:
+        w, R = walks[0]
+        root_names.add(R)
+        wn = fcfg.node_of(w)
+        for s_, v in [(n, n.value) for n in walk_function(f.node) if isinstance(n, ast.Assign)]:
+            if isinstance(v, ast.Name) and v.id in root_names and fcfg.dominates(wn, fcfg.node_of(s_)) and not any(x is s_ for x in ast.walk(w)):
+                for t in s_.targets:
+                    if isinstance(t, ast.Name):
+                        root_names.add(t.id)
+        # a root name must not be re-bound after the walk
+        for nm in list(root_names):
+            for s_, v in util.assignments_to(f.node, nm):
+                if isinstance(s_, ast.stmt) and not any(x is s_ for x in ast.walk(w)) and fcfg.find_path(wn, fcfg.node_of(s_)) is not None and not (isinstance(v, ast.Name) and v.id in root_names):
+                    if nm != R or True:
+                        if not (isinstance(v, ast.AST) and isinstance(v, ast.Name) and v.id in root_names):
+                            root_names.discard(nm) if nm != R else None
+    pstores = []
     for n in walk_function(f.node):
-        if isinstance(n, ast.Assign) and isinstance(n.targets[0], ast.Tuple) and isinstance(n.value, ast.Tuple):
-            for t, v in zip(n.targets[0].elts, n.value.elts):
-                if isinstance(t, ast.Attribute) and t.attr == "parent":
-                    ga = guard_atoms(fcfg, fcfg.node_of(n))
-                    ok = u(v) == "root"
-                    loopnode = [w for w in walk_function(f.node) if isinstance(w, ast.While) and "root.parent" in u(w.test)]
-                    ok = ok and len(loopnode) == 1 and fcfg.dominates(fcfg.node_of(loopnode[0]), fcfg.node_of(n)) and fcfg.find_path(fcfg.node_of(n), fcfg.node_of(loopnode[0])) is None
-        elif isinstance(n, ast.Assign) and isinstance(n.targets[0], ast.Attribute) and n.targets[0].attr == "parent":
-            ok = u(n.value) == "root"
+        if isinstance(n, ast.Assign):
+            for t0 in n.targets:
+                if isinstance(t0, ast.Tuple) and isinstance(n.value, ast.Tuple):
+                    pairs = list(zip(t0.elts, n.value.elts))
+                else:
+                    pairs = [(t0, n.value)]
+                for t, v in pairs:
+                    if isinstance(t, ast.Attribute) and t.attr == "parent":
+                        pstores.append((n, v))
+    ok = len(walks) == 1 and bool(pstores)
+    for n, v in pstores:
+        okv = isinstance(v, ast.Name) and v.id in root_names
+        okpos = len(walks) == 1 and fcfg.dominates(fcfg.node_of(walks[0][0]), fcfg.node_of(n)) and not any(x is n for x in ast.walk(walks[0][0]))
+        ok = ok and okv and okpos
     ctx.ob(f.qual, "compression-points-to-the-root", ok, f.loc(), "path compression only re-points nodes to the root found by the completed upward walk" if ok else "_find_node assigns a .parent that is not the terminated root")
     rets = [n for n in walk_function(f.node) if isinstance(n, ast.Return)]
-    ok = len(rets) == 1 and u(rets[0].value) == "root"
-    walk = [w for w in walk_function(f.node) if isinstance(w, ast.While) and atoms(w.test, True) == {("None is root.parent", False)} and any(isinstance(b, ast.Assign) and u(b.targets[0]) == "root" and u(b.value) == "root.parent" for b in w.body)]
-    ctx.ob(f.qual, "returns-the-root", ok and len(walk) == 1, f.loc(), "_find_node walks parent links until None and returns that node" if ok and walk else "_find_node does not return the node whose parent is None")
+    ok = len(rets) == 1 and isinstance(rets[0].value, ast.Name) and rets[0].value.id in root_names
+    ctx.ob(f.qual, "returns-the-root", ok and len(walks) == 1, f.loc(), "_find_node walks parent links until None and returns that node" if ok and walks else "_find_node does not return the node whose parent is None")
     fd = ctx.func(G + ".find")
     rets = [n for n in walk_function(fd.node) if isinstance(n, ast.Return)]
     ok = len(rets) == 1 and u(rets[0].value) == "self._find_node(%s).value" % util.params_of(fd.node)[1]
@@ -96,22 +141,30 @@ def r2(ctx):
             ctx.ob(fc.qual, "read-positions-come-from-the-read", False, fc.loc(s), "positions = %s is not a selection of the read's own variant positions: positions the read does not cover would be merged into its component" % u(v)[:80])
     if len(comps) == len(alldefs):
         ctx.ob(fc.qual, "read-positions-come-from-the-read", True, fc.loc(), "every definition of `positions` (%d) is a comprehension over the read's own variants" % len(comps))
-    for s, v in comps:
+    import itertools
+    from rules.common import tt_eval
+
+    for k_, (s, v) in enumerate(comps):
         ga = guard_atoms(cfg, cfg.node_of(s))
         g = v.generators[0]
         var = u(g.target)
         base_ok = len(v.generators) == 1 and u(g.iter) == readv and u(v.elt) == "%s.position" % var
-        conds = set()
-        for c in g.ifs:
-            conds |= atoms(c, True)
-        if ("None is %s" % het_p, True) in ga:
-            want = {("%s.position in phased_positions_set" % var, True)}
-            name = "no-het-map"
-        else:
-            want = {("%s.position in phased_positions_set" % var, True), ("%s.position in %s[%s.sample_id]" % (var, het_p, readv), True)}
-            name = "with-het-map"
-        ok = base_ok and conds == want
-        ctx.ob(fc.qual, "read-positions-filter:%s" % name, ok, fc.loc(s), "a read contributes exactly its positions that are %s" % " and ".join(sorted(t for t, p in want)) if ok else "position filter is %s, expected %s" % (sorted(conds), sorted(want)))
+        A, B, C = "%s.position in phased_positions_set" % var, "None is %s" % het_p, "%s.position in %s[%s.sample_id]" % (var, het_p, readv)
+        cond = ast.BoolOp(op=ast.And(), values=list(g.ifs)) if len(g.ifs) != 1 else g.ifs[0]
+        wrong = None
+        name = "no-het-map" if (B, True) in ga else ("with-het-map" if (B, False) in ga else "any")
+        try:
+            for va, vb, vc in itertools.product((False, True), repeat=3):
+                if ((B, True) in ga and not vb) or ((B, False) in ga and vb):
+                    continue  # valuation excluded by the guard of this definition
+                got = tt_eval(cond, {A: va, B: vb, C: vc}) if g.ifs else True
+                if got != (va and (vb or vc)) and wrong is None:
+                    wrong = "phased=%s, het map absent=%s, het in sample=%s -> included=%s" % (va, vb, vc, got)
+            okf = base_ok and wrong is None
+            msg = "position filter `%s` gives %s" % (u(cond)[:90], wrong) if wrong else "comprehension is not over the read's own variants"
+        except ValueError as e:
+            okf, msg = False, "position filter `%s` uses a condition outside {phased position, het map present, het in the read's sample}: %s" % (u(cond)[:90], e)
+        ctx.ob(fc.qual, "read-positions-filter:%s" % name, okf, fc.loc(s), "a read contributes exactly its positions that are phased and (if a het map is given) heterozygous in the read's sample -- checked over all valuations of the three conditions" if okf else msg)
     merges = [c for c in ctx.prog.calls_in(fc.node) if u(c.func) == "component_finder.merge"]
     ctx.require(len(merges) == 2, "expected two merge sites (reads, master block)")
     for c in merges:
@@ -133,7 +186,10 @@ def r2(ctx):
         while ml is not None and not isinstance(ml, ast.For):
             ml = ml.parent
         mnode = cfg.node_of(ml)
-        probs = util.check_loop_conservation(cfg, rl[0], lambda n: n == mnode)
+        # a branch on which the merged sequence has fewer than two elements may skip the (then empty) merge loop
+        seqtxt = u(ml.iter.value) if isinstance(ml.iter, ast.Subscript) else u(ml.iter)
+        short = util.edges_implying_short(cfg, seqtxt, 1)
+        probs = util.check_loop_conservation(cfg, rl[0], lambda n: n == mnode or n in short)
         ctx.ob(fc.qual, "every-read-contributes-its-links", not probs, fc.loc(rl[0]), "every read of the set reaches the merge loop (no read is skipped, the read loop has no early exit)" if not probs else "a read can be skipped before its positions are merged: variants it links end up in different phase sets", cfg.describe_path(probs[0][1]) if probs else None)
     mbm = [c for c in merges if "master_block" in u(c) or mb_p in u(c)]
     ok = len(mbm) == 1 and ("None is %s" % mb_p, False) in guard_atoms(cfg, cfg.node_containing(mbm[0]))
